@@ -12,6 +12,37 @@ pub(crate) mod stack;
 
 mod variables;
 
+/// Verification hook (only with `--cfg mscript_verif`): appends one record per executed instruction
+/// (function, instruction index, opcode, frame-stack depth, open special scopes, operand-stack length)
+/// to the file named by `MSCRIPT_VERIF_TRACE`. Opcode 255 marks falling off the end of a function.
+#[cfg(mscript_verif)]
+pub(crate) mod verif_trace {
+    use std::io::Write;
+
+    pub(crate) fn record(
+        function: &str,
+        ip: usize,
+        opcode: u8,
+        frames: usize,
+        special_scopes: usize,
+        operand_stack: usize,
+    ) {
+        let Ok(path) = std::env::var("MSCRIPT_VERIF_TRACE") else {
+            return;
+        };
+        if let Ok(mut file) = std::fs::OpenOptions::new()
+            .create(true)
+            .append(true)
+            .open(path)
+        {
+            let _ = writeln!(
+                file,
+                "{function} {ip} {opcode} {frames} {special_scopes} {operand_stack}"
+            );
+        }
+    }
+}
+
 // Alternate naming to make writing FFI functions simpler.
 pub use function::ReturnValue as FFIReturnValue;
 pub(crate) use variables::GcVector;
